@@ -9,15 +9,15 @@ CLAIMS = {
  'C01': dict(text='Bounded symbolic execution of the real peg-generated expression parser (plc_parser::expression, __infix_parse and its closures, from MIR) on token sequences whose operator '
                   'token types are symbolic; each path yields the complete ExprKind tree, compared with an Annex B.3.1 precedence-climbing reference; mismatches are replayed through parse_program.',
              tech='SMT-guided bounded symbolic execution of rustc MIR of the generated parser (z3)', sect='§4 C01',
-             note='Kernels K1 (expressions), K4 (variable block class x qualifier, symbolic block/qualifier token types through parse_library), K5 (statement_list over token sequences with symbolic token types against an IEC B.3.2 DFA reference; flatten_statements unit step), K6 (33 source templates with symbolic shape selectors and unique identifiers: the names of the returned library, depth-first, equal the names written, in order), K7 (sign and digits of integer literals symbolic in four grammar contexts). Outside: all other productions, whole-grammar faithfulness, literal spelling (C09).'),
+             note='Kernels K1 (expressions), K4 (variable block class x qualifier, symbolic block/qualifier token types through parse_library), K5 (statement_list over token sequences with symbolic token types against an IEC B.3.2 DFA reference; flatten_statements unit step), K6 (33 source templates with symbolic shape selectors and unique identifiers: the names of the returned library, depth-first, equal the names written, in order), K7 (sign and digits of integer literals symbolic in four grammar contexts). Outside: all other productions, whole-grammar faithfulness, literal spelling (C09). K8 (= C09-K6: the characters written in a string literal are the characters of the value).'),
  'C02': dict(text='Bounded symbolic execution of rule visitors from MIR on program templates resolved by the real resolve_types, with identifiers symbolic over a small alphabet, compared with reference predicates written from the rule documentation; '
                   'stages::semantic executed with every rule replaced by a nondeterministic stub (registration of every rule module, Err iff any rule fails, diagnostics concatenated). Mismatches are replayed through analyze().',
              tech='SMT-guided bounded symbolic execution of rustc MIR (z3) with symbolic-key hash-map model', sect='§4 C02',
-             note='Kernels K1 (7 rule templates incl. function-block invocation scope and constant globals), K4 (subrange limits on symbolic signed bounds) and K3. Outside: the remaining rules, rule interaction on whole programs, derive(Recurse) traversal completeness (K2) unless listed in evidence. K5 (parse_program + stages::analyze on ~700 shapes of 12 source templates covering every documented rule - function-block arguments P0006-P0009, invocation scope P0021, enumerated values P0012-P0014, CONSTANT rules P0016/P0017, unsupported standard types P0029, undeclared variables in every statement kind P0015, structure elements, enumeration values, tasks, subranges, constant globals - against reference predicates written from the rule documentation).'),
+             note='Kernels K1 (7 rule templates incl. function-block invocation scope and constant globals), K4 (subrange limits on symbolic signed bounds) and K3. Outside: the remaining rules, rule interaction on whole programs, derive(Recurse) traversal completeness (K2) unless listed in evidence. K5 (parse_program + stages::analyze on ~700 shapes of 12 source templates covering every documented rule - function-block arguments P0006-P0009, invocation scope P0021, enumerated values P0012-P0014, CONSTANT rules P0016/P0017, unsupported standard types P0029, undeclared variables in every statement kind P0015, structure elements, enumeration values, tasks, subranges, constant globals - against reference predicates written from the rule documentation). K2 (derive(Recurse) traversal of all 103 node types from the MIR with a recording visitor whose k-th call fails for a symbolic k: every child not marked #[recurse(ignore)] is visited once, in order, and a child\'s Err is returned), K2b (Visitor::walk with the trait\'s default methods on parsed template shapes reaches every identifier exactly once; replay through a Visitor implemented against the public API).'),
  'C03': dict(text='Symbolic execution of FileBackedProject::semantic (parse/analyze as nondeterministic stubs, hash order nondeterministic) and of xform_toposort_declarations::apply on declaration pairs with symbolic names; '
                   'the solver decides that no parse error, analysis error or declaration is lost. Models are replayed through Project::semantic / ironplcc check / analyze.',
              tech='SMT-guided bounded symbolic execution of rustc MIR (z3)', sect='§4 C03',
-             note='Kernels K1, K3, K4 (same-name declarations diagnosed by resolve_types), K5 (a rule finding is never hidden by a second, valid declaration; both orders). Outside: per-rule behaviour in company of other declarations (argued from C02), sets larger than the bounds. K6 (16 single-fault units x valid companion declarations, before/after and in a second file, every toposort tie-break: the fault\'s code is still reported).'),
+             note='Kernels K1, K3, K4 (same-name declarations diagnosed by resolve_types), K5 (a rule finding is never hidden by a second, valid declaration; both orders). Outside: per-rule behaviour in company of other declarations (argued from C02), sets larger than the bounds. K6 (16 single-fault units x valid companion declarations, before/after and in a second file, every toposort tie-break: the fault\'s code is still reported). K2 (a valid program with 1-2 symbolic bytes inserted: whenever the lexer of the same tree yields an error token, parse_program returns Err).'),
  'C06': dict(text='Symbolic execution of project.semantic under every hash iteration order, of toposort apply under every permutation of the declarations and every toposort tie-break, and of stages::resolve_types under file partitions, '
                   'with reference edges symbolic; verdicts must equal the reference graph verdict whatever the order/partition.',
              tech='SMT-guided bounded symbolic execution of rustc MIR (z3), nondeterministic contract models for hash order and toposort ties', sect='§4 C06',
@@ -40,7 +40,7 @@ CLAIMS = {
  'C14': dict(text='Symbolic execution of source::path_to_source with std::fs::read and encoding_rs::Encoding::decode* modelled by their documented contract over abstract files (stored encoding x text); '
                   'symbolic execution of the real lexer over every valid UTF-8 text up to N bytes (totality, tiling, character boundaries). Replayed through `ironplcc check` on files stored in each encoding.',
              tech='SMT-guided bounded symbolic execution of rustc MIR (z3); lexer DFA lifted to an ite-DAG', sect='§4 C14',
-             note='Kernels K1, K2. Outside: encoding_rs internals, UTF-16 without BOM, positions after multi-byte text (C05). K1 models parts of the file (prefixes/chunks) as abstract byte strings whose decodability is independent of the whole; replay also stores files whose first non-ASCII character lies behind or across 1 KiB .. 64 KiB boundaries.'),
+             note='Kernels K1, K2. Outside: encoding_rs internals, UTF-16 without BOM, positions after multi-byte text (C05). K1 models parts of the file (prefixes/chunks) as abstract byte strings whose decodability is independent of the whole; replay also stores files whose first non-ASCII character lies behind or across 1 KiB .. 64 KiB boundaries. K3 (one arbitrary Unicode scalar of 1-4 symbolic bytes inside a comment, a string, between tokens, inside an identifier, after a line comment: no panic, tiling, no boundary inside the character).'),
  'C15': dict(text='Symbolic execution of LspProject::tokenize and From<LspTokenType> for Option<SemanticToken>: tokens with symbolic, ordered (line, col) are decoded under the LSP relative encoding by the solver; legend table over a symbolic TokenType; error result on lexical errors; '
                   'lexer line/column accounting over all UTF-8 texts up to N bytes. Replayed through the LSP binary.',
              tech='SMT-guided bounded symbolic execution of rustc MIR (z3)', sect='§4 C15',
